@@ -145,6 +145,7 @@ func runC08(rep Rep, c C08Case) {
 	var last lastOK
 	sawRollback, sawNonTemplateEdit, sawCollision := false, false, false
 	nonTemplateEditSince := false
+	templateEditSince := false // any template switch since the last successful reconcile (even one that was switched back)
 	type planted struct {
 		name string
 		raw  []byte
@@ -157,6 +158,9 @@ func runC08(rep Rep, c C08Case) {
 		where := fmt.Sprintf("op %d", i)
 		switch o.K {
 		case 1:
+			if o.A%len(c.Templates) != cur {
+				templateEditSince = true
+			}
 			cur = o.A % len(c.Templates)
 			t := c.Templates[cur].DeepCopy()
 			edit(func(x *asv1.StatefulSet) { x.Spec.Template = *t })
@@ -380,8 +384,9 @@ func runC08(rep Rep, c C08Case) {
 					sawRollback = true
 				}
 			}
-			if last.hasBase && last.tmpl == cur {
-				// template unchanged since the last successful reconcile
+			if last.hasBase && last.tmpl == cur && !templateEditSince {
+				// template unchanged since the last successful reconcile (failed reconciles in between may have acted
+				// on other templates - rolled back, trimmed - so "same template as last time" alone is not "unchanged")
 				if len(creates) > 0 {
 					rep.Violate("revision/created-for-unchanged-template", "%s: reconciling an unchanged template created revision %s\n%s", where, creates[0].Name, r.Transcript())
 				}
@@ -412,6 +417,7 @@ func runC08(rep Rep, c C08Case) {
 			}
 			last = lastOK{tmpl: cur, updRev: upd, nrevs: len(cl.Revs()), hasBase: true}
 			nonTemplateEditSince = false
+			templateEditSince = false
 		}
 	}
 	rep.FP(worldFPAny(c.Ops), len(c.Templates), c.Limit, worldFPAny(c.Templates))
